@@ -58,7 +58,9 @@ pub struct Cx {
     pub paths: u64,
     pub max_depth: u64,
     pub outcomes: BTreeMap<String, u64>,
+    /// first violation of each class key (full, with trace); further instances are only counted
     pub violations: Vec<Violation>,
+    pub vio_counts: BTreeMap<String, u64>,
     pub samples: Vec<Value>,
     pub extra: BTreeMap<String, u64>,
     pub caps: Vec<String>,
@@ -80,6 +82,7 @@ impl Cx {
             max_depth: 0,
             outcomes: BTreeMap::new(),
             violations: vec![],
+            vio_counts: BTreeMap::new(),
             samples: vec![],
             extra: BTreeMap::new(),
             caps: vec![],
@@ -96,6 +99,11 @@ impl Cx {
     /// count states that are distinct by construction without hashing them (e.g. one per enumerated mutant)
     pub fn states_by_construction(&mut self, n: u64) {
         self.n_states_extra += n;
+    }
+    /// drop the state set, keeping its size (bounds memory once an item is finished)
+    pub fn compact(&mut self) {
+        self.n_states_extra += self.states.len() as u64;
+        self.states = HashSet::new();
     }
     pub fn n_states(&self) -> u64 {
         self.states.len() as u64 + self.n_states_extra
@@ -130,12 +138,16 @@ impl Cx {
         }
     }
     pub fn violate(&mut self, key: &str, what: String) {
-        let trace = api::rec_snapshot();
-        self.violations.push(Violation { property: self.property.to_string(), key: key.to_string(), what, suite: self.suite.clone(), case: self.case.clone(), trace });
+        let case = self.case.clone();
+        self.violate_case(key, what, case);
     }
     pub fn violate_case(&mut self, key: &str, what: String, case: Value) {
-        let trace = api::rec_snapshot();
-        self.violations.push(Violation { property: self.property.to_string(), key: key.to_string(), what, suite: self.suite.clone(), case, trace });
+        let n = self.vio_counts.entry(key.to_string()).or_insert(0);
+        *n += 1;
+        if *n == 1 {
+            let trace = api::rec_snapshot();
+            self.violations.push(Violation { property: self.property.to_string(), key: key.to_string(), what, suite: self.suite.clone(), case, trace });
+        }
     }
     /// report panics observed by the API monitor since the last call as violations of `property` (C12's monitor
     /// is active in every driver; see DESIGN 3/C12)
@@ -158,6 +170,7 @@ pub struct Totals {
     pub extra: BTreeMap<String, u64>,
     pub per_suite: BTreeMap<String, Value>,
     pub violations: Vec<Violation>,
+    pub vio_counts: BTreeMap<String, u64>,
     pub samples: Vec<Value>,
     pub caps: Vec<String>,
     pub undetermined: u64,
@@ -180,6 +193,7 @@ pub fn run_items<I: Sync + Send, F: Fn(&I, &mut Cx) + Sync>(property: &'static s
             let mut cx = Cx::new(property, &suite);
             f(it, &mut cx);
             cx.drain_panics();
+            cx.compact();
             let cnt = api::counters_take();
             let mut err = None;
             if !cx.violations.is_empty() {
@@ -192,8 +206,8 @@ pub fn run_items<I: Sync + Send, F: Fn(&I, &mut Cx) + Sync>(property: &'static s
                 let _ = api::counters_take();
                 let k1: Vec<(&String, &String)> = cx.violations.iter().map(|v| (&v.key, &v.what)).collect();
                 let k2: Vec<(&String, &String)> = cx2.violations.iter().map(|v| (&v.key, &v.what)).collect();
-                if k1 != k2 {
-                    err = Some(format!("non-reproducible violations in suite {} (first pass {} / second pass {}): machinery error", suite, k1.len(), k2.len()));
+                if k1 != k2 || cx.vio_counts != cx2.vio_counts {
+                    err = Some(format!("non-reproducible violations in suite {} (first pass {} / second pass {} classes): machinery error", suite, k1.len(), k2.len()));
                 }
                 cx.violations = cx2.violations;
             }
@@ -230,7 +244,14 @@ pub fn run_items<I: Sync + Send, F: Fn(&I, &mut Cx) + Sync>(property: &'static s
                 t.caps.push(c);
             }
         }
-        t.violations.extend(cx.violations);
+        for (k, n) in &cx.vio_counts {
+            *t.vio_counts.entry(k.clone()).or_insert(0) += n;
+        }
+        for v in cx.violations {
+            if !t.violations.iter().any(|x| x.key == v.key) {
+                t.violations.push(v);
+            }
+        }
         if let Some(e) = err {
             t.machinery_errors.push(e);
         }
@@ -278,7 +299,14 @@ impl Totals {
                 self.caps.push(c);
             }
         }
-        self.violations.extend(o.violations);
+        for (k, n) in o.vio_counts {
+            *self.vio_counts.entry(k).or_insert(0) += n;
+        }
+        for v in o.violations {
+            if !self.violations.iter().any(|x| x.key == v.key) {
+                self.violations.push(v);
+            }
+        }
         self.machinery_errors.extend(o.machinery_errors);
     }
 }
@@ -330,7 +358,8 @@ pub fn finish(rep: Report, t: Totals, t0: Instant) -> i32 {
     // group violations by key, first instance kept (enumeration is simplest-first)
     let mut by_key: BTreeMap<String, (Violation, u64)> = BTreeMap::new();
     for v in t.violations.iter() {
-        by_key.entry(v.key.clone()).and_modify(|e| e.1 += 1).or_insert((v.clone(), 1));
+        let n = t.vio_counts.get(&v.key).copied().unwrap_or(1);
+        by_key.entry(v.key.clone()).or_insert((v.clone(), n));
     }
     let mut new_violations = 0;
     let mut known = 0;
